@@ -45,7 +45,7 @@ import (
 )
 
 func init() {
-	register(&Prop{ID: "C25", Gen: genC25, Run: runC25, Timeout: 30 * time.Second})
+	register(&Prop{ID: "C25", Gen: genC25, Run: runC25, Timeout: 600 * time.Second})
 }
 
 func genC25(r *Rand, n int, tier string, emit func(string)) {
@@ -464,7 +464,7 @@ func runC25(op string) string {
 	go func() {
 		var seq int64
 		for {
-			msg, err := l.peer.recv(protoId, 30*time.Second)
+			msg, err := l.peer.recv(protoId, 600*time.Second)
 			if err != nil {
 				return
 			}
@@ -519,7 +519,7 @@ func runC25(op string) string {
 	hang := ""
 	select {
 	case <-doneCh:
-	case <-time.After(10 * time.Second):
+	case <-time.After(300 * time.Second):
 		hang = " HANG"
 		l.close()
 		select {
